@@ -7,7 +7,10 @@ CONSTANTS
   TailLens = {1}
   Spans = {0, 1}
   YieldSets = {{}, {1}, {0, 2}}
-  SplitKinds = {0, 3}
+  SplitKinds = {0, 24}
+  TailSplitKinds = {0}
+  LateKinds = {1}
+  EmptyFeeds = TRUE
   Interleave = TRUE
 INVARIANTS TypeOK Lossless Contiguous FitsBudget SmallIsPure YieldStartsNewBatch
 PROPERTIES Delivered
